@@ -127,6 +127,23 @@ Proof.
   rewrite (Hoth t' Hne), (Hl t' Hne). destruct (Hall t') as (A & B0 & C0 & D & E). repeat split; auto; lia.
 Qed.
 
+Lemma Rel_mono c s g B Bb B' Bb' : Rel c s g B Bb -> B <= B' -> Bb <= Bb' -> Rel c s g B' Bb'.
+Proof. intros (Hg & Hall) H1 H2. split; [exact Hg|]. intros t. destruct (Hall t) as (A & B0 & C0 & D & E). repeat split; auto; lia. Qed.
+
+(* creating the topic's writer (its first block) changes nothing the consumer can see *)
+Lemma ensure_rel c s g B Bb t : cfg_ok c -> Rel c s g B Bb ->
+  Rel c (fst (ensure_writer c s t)) g B Bb.
+Proof.
+  intros Hc (Hg & Hall).
+  destruct (ensure_writer_spec c s t Hc Hg) as (s1 & w & He & Hle1 & Hn1 & Hoth1 & Hw1 & Hp1 & Hst1 & Hun1 & Hcnt1).
+  rewrite He. cbn [fst].
+  assert (Hg1 : GInv c s1).
+  { destruct Hg as (Hn & Hti). eapply GInv_update with (t := t_id t); [split; [exact Hn|exact Hti]|exact Hle1|exact Hoth1|reflexivity|].
+    apply TInvP_cnt; [exact Hp1|]. rewrite Hcnt1, Hun1. apply (ti_cnt _ _ _ (Hti (t_id t))). }
+  eapply Rel_other with (t := t_id t) (g := g); [split; [exact Hg|exact Hall]|exact Hg1|lia|lia|exact Hoth1|reflexivity|].
+  rewrite Hst1, Hun1. apply Hall.
+Qed.
+
 Lemma skipn_cons_S {A} (l : list A) d x r : skipn d l = x :: r -> skipn (S d) l = r /\ (S d <= length l)%nat.
 Proof.
   revert l; induction d as [|d IH]; intros l H; destruct l; cbn in *; try discriminate.
@@ -144,10 +161,12 @@ Proof.
   destruct o as [t e | t es | t ck | t maxb ck start | t | ]; cbn [step env_of v_cfg v_mode v_backend op_ok offered] in *.
   - (* append *)
     destruct (appendable c t (e_len e)) as [k|] eqn:Eap.
-    { (* rejected on its arguments: nothing happened at all *)
-      unfold append. rewrite Eap. cbn [c01_step_ok c15_step_ok c03_step_ok ledger_step].
+    { (* rejected on its arguments: at most the topic's writer was created *)
+      pose proof (ensure_rel c s g B Bb t Hc Hrel) as Hen.
+      unfold append. destruct (ensure_writer c s t) as [s1 w]. cbn [fst] in Hen. rewrite Eap.
+      cbn [c01_step_ok c15_step_ok c03_step_ok ledger_step].
       split; [reflexivity|]. split; [reflexivity|]. split; [reflexivity|].
-      destruct Hrel as (Hg0 & Hall0). split; [exact Hg0|]. intros t0. destruct (Hall0 t0) as (A & B0 & C0 & D & E). repeat split; auto; lia. }
+      eapply Rel_mono; [exact Hen|lia|lia]. }
     destruct (appendable_none_inv c t _ Hc Eap) as (Hname & Hsz). fold (need c e) in Hsz.
     destruct (Hall (t_id t)) as (Hd & Hs & Hu & Hb1 & Hb2).
     assert (Hcb : cnt (get_ts s (t_id t)) + 1 <= u64_max).
@@ -164,9 +183,15 @@ Proof.
       * rewrite sum_len_app. cbn. unfold sum_len in *. cbn in *. lia.
   - (* batch *)
     destruct (appendable c t (max_len es)) as [k|] eqn:Eap.
-    { unfold batch. rewrite Eap. cbn [c01_step_ok c15_step_ok c03_step_ok ledger_step].
-      split; [reflexivity|]. split; [reflexivity|]. split; [reflexivity|].
-      destruct Hrel as (Hg0 & Hall0). split; [exact Hg0|]. intros t0. destruct (Hall0 t0) as (A & B0 & C0 & D & E). repeat split; auto; lia. }
+    { pose proof (ensure_rel c s g B Bb t Hc Hrel) as Hen.
+      unfold batch. destruct (ensure_writer c s t) as [s1 w]. cbn [fst] in Hen.
+      assert (Hfin : forall k0, c01_step_ok g (OBatch t es) (RErr k0) = true /\ c15_step_ok g (OBatch t es) (RErr k0) = true /\
+                c03_step_ok (c_max_entries c) g (OBatch t es) (RErr k0) = true /\
+                Rel c s1 (ledger_step g (OBatch t es) (RErr k0)) (B + N.of_nat (length es)) (Bb + sum_len es)).
+      { intros k0. cbn [c01_step_ok c15_step_ok c03_step_ok ledger_step].
+        split; [reflexivity|]. split; [reflexivity|]. split; [reflexivity|]. eapply Rel_mono; [exact Hen|lia|lia]. }
+      destruct (c_max_entries c <? N.of_nat (length es)); [apply Hfin|].
+      destruct (c_max_bytes c <? sum_need c es); [apply Hfin|]. rewrite Eap. apply Hfin. }
     destruct (appendable_none_inv c t _ Hc Eap) as (Hname & Hsz0).
     assert (Hok' : batch_ok c t es) by (split; [exact Hname|now apply max_len_forall]).
     clear Hok. rename Hok' into Hok.
